@@ -635,7 +635,7 @@ def main(tier, replay):
     # scheduler (C06's subject): when the attach goroutine lost that race and
     # panicked, run the scenario again before drawing conclusions.
     for attempt in range(3):
-        lost = [i for i, o in enumerate(outs) if o.get("panic") and o["scenario"]["router"].get("closing")]
+        lost = [i for i, o in enumerate(outs) if o.get("panic") and (o["scenario"]["router"].get("closing") or o["scenario"]["router"].get("stopped"))]
         if not lost:
             break
         again, _ = run.execute([outs[i]["scenario"] for i in lost], "closing-retry")
@@ -771,7 +771,7 @@ def analyse(compared, consts):
         sc = o["scenario"]
         dd = list(d or [])
         # timeouts are honoured exactly (virtual clock)
-        if o.get("timeout_kind") == "hello" and consts.get("hello_timeout_ns") is not None and not sc["router"].get("closing"):
+        if o.get("timeout_kind") == "hello" and consts.get("hello_timeout_ns") is not None and not sc["router"].get("closing") and not sc["router"].get("stopped"):
             if abs(o.get("t_ret_ms", 0) - consts["hello_timeout_ns"] / 1e6) > 1e-6:
                 dd.append("hello_timeout(%sms)" % o.get("t_ret_ms"))
         if o.get("panic"):
